@@ -223,7 +223,7 @@ def is_fn_item(item):
     return any(item.get(k) for k in ('requires', 'ensures', 'decreases', 'ret', 'loops', 'inserts', 'closures', 'wraps', 'adapts')) and not item.get('keep_fields')
 
 
-def job(u, sentinel=False):
+def job(u, sentinel=False, soft_inserts=False, drop_inserts=None, repo=None):
     items = []
     todo = [(it, False) for it in u.items]
     if sentinel:
@@ -267,6 +267,10 @@ def job(u, sentinel=False):
             j['closures'] = cl
         if it['inserts']:
             j['inserts'] = it['inserts']
+            if soft_inserts:
+                j['soft_inserts'] = True
+            if drop_inserts and it['path'] in drop_inserts:
+                j['drop_inserts'] = drop_inserts[it['path']]
         if it.get('wraps'):
             j['wraps'] = it['wraps']
         if it.get('adapts'):
@@ -274,7 +278,7 @@ def job(u, sentinel=False):
         if it.get('brk_types'):
             j['brk_types'] = it['brk_types']
         items.append(j)
-    repo = os.environ.get('VERIF_REPO', '/repo')
+    repo = repo or os.environ.get('VERIF_REPO', '/repo')
     import glob
     mods = {}
     for k, p in u.modules.items():
